@@ -57,6 +57,11 @@ func genBatches(t *rapid.T, f *fx.Fixture, cfg foreignCfg) [][]*vt.Val {
 }
 
 func genPhys(t *rapid.T, root *vt.Node, batches [][]*vt.Val, plain bool) *pqref.FilePhys {
+	return genPhysPages(t, root, batches, plain, false)
+}
+
+// genPhysPages: with onePageOnly every column chunk is a single page (long level runs stay in one stream).
+func genPhysPages(t *rapid.T, root *vt.Node, batches [][]*vt.Val, plain bool, onePageOnly bool) *pqref.FilePhys {
 	cols := root.Columns()
 	ph := &pqref.FilePhys{}
 	if !plain {
@@ -89,7 +94,7 @@ func genPhys(t *rapid.T, root *vt.Node, batches [][]*vt.Val, plain bool) *pqref.
 			rem := n
 			for rem > 0 {
 				var k int
-				if rapid.IntRange(0, 2).Draw(t, "onePage") == 0 {
+				if onePageOnly || rapid.IntRange(0, 2).Draw(t, "onePage") == 0 {
 					k = rem
 				} else {
 					k = rapid.IntRange(1, rem).Draw(t, "pageRecs")
@@ -187,6 +192,9 @@ func foreignLabels(root *vt.Node, c *ForeignCase) (l []string, nt bool) {
 	if len(c.Batches) > 1 {
 		l = append(l, "rowgroups>=2")
 	}
+	if len(c.Batches) == 1 && len(c.Batches[0]) >= 8192 {
+		l = append(l, "one-page-of->=8192-identical-records")
+	}
 	return
 }
 
@@ -281,8 +289,24 @@ func propC04(t *rapid.T) {
 	{
 		c := &ForeignCase{Fixture: rapid.SampledFrom(cfg.fixtures).Draw(t, "fixture")}
 		f := fx.Get(c.Fixture)
-		c.Batches = genBatches(t, f, cfg)
-		c.Phys = genPhys(t, f.Root, c.Batches, false)
+		// ~3 %: one page per column with 8192..9300 identical records, so every level stream is one run whose
+		// header needs three LEB128 bytes when the writer emits it as a single RLE run (a window in the middle of the
+		// range: rapid favours the ends of an IntRange)
+		if b := rapid.IntRange(0, 99).Draw(t, "longRunPct"); b >= 50 && b < 53 && fx.Has("tiny") {
+			c.Fixture = "tiny"
+			f = fx.Get(c.Fixture)
+			rec := vt.GenRecord(t, f.Root, vt.DefaultGen)
+			n := rapid.IntRange(8192, 9300).Draw(t, "longRunRecords")
+			recs := make([]*vt.Val, n)
+			for i := range recs {
+				recs[i] = rec
+			}
+			c.Batches = [][]*vt.Val{recs}
+			c.Phys = genPhysPages(t, f.Root, c.Batches, false, true)
+		} else {
+			c.Batches = genBatches(t, f, cfg)
+			c.Phys = genPhys(t, f.Root, c.Batches, false)
+		}
 		o := checkC04(c)
 		l, nt := foreignLabels(f.Root, c)
 		record("C04", hashOf(c), nt, l, c.sample)
